@@ -1,8 +1,76 @@
 (** C07 — snapshot export/import, save and in-memory copy preserve the whole graph: the
     property theorems (statements only; proofs are in Wal/Proofs*.v).  Pinned by props/C07.statements. *)
 From GV Require Export Wal.Spec.
-From GV Require Import Wal.ProofsFrame Wal.ProofsRecover Wal.ProofsDb Wal.ProofsSnap Wal.ProofsWitness.
+From GV Require Import Wal.ProofsFrame Wal.ProofsRecover Wal.ProofsDb Wal.ProofsSnap Wal.ProofsCodec Wal.ProofsCrash Wal.ProofsReach Wal.ProofsReal Wal.ProofsWitness.
 Open Scope Z_scope.
+
+(** import of an export: for every store whose live entities are all visible at the store's
+    own epoch, the copy dumps exactly as the source (ids, labels, types, endpoints, every
+    property value byte for byte), at the latest epoch and at its own — for any snapshot codec
+    that carries the snapshot of this store *)
+Theorem import_export : forall enc_snap dec_snap s,
+  snap_carried enc_snap dec_snap (snapshot_of s) ->
+  store_wf s -> epoch_clean s = true -> names_max_id (snapshot_of s) = false ->
+  exists c, import dec_snap (export enc_snap s) = IOk c /\ dump c latest = dump s latest
+            /\ dump c (s_epoch c) = dump s latest.
+Proof. exact import_export_l. Qed.
+Print Assumptions import_export.
+
+(** the bincode snapshot codec carries every well-formed snapshot *)
+Theorem snapshot_codec_roundtrip : forall sn, snap_wf sn -> snap_carried enc_snapshot dec_snapshot sn.
+Proof. exact snap_wf_carried. Qed.
+Print Assumptions snapshot_codec_roundtrip.
+
+Theorem import_export_real : forall s,
+  snap_wf (snapshot_of s) -> store_wf s -> epoch_clean s = true -> names_max_id (snapshot_of s) = false ->
+  exists c, import dec_snapshot (export enc_snapshot s) = IOk c /\ dump c latest = dump s latest
+            /\ dump c (s_epoch c) = dump s latest.
+Proof. exact import_export_real_l. Qed.
+Print Assumptions import_export_real.
+
+(** every store built through the API (any sequence of operations, through the database or
+    through sessions) is well formed; outside class C07-K1 import of its export and to_memory
+    dump exactly as the source *)
+Theorem api_store_wellformed : forall os, store_wf (fst (run_store os)).
+Proof. exact api_store_wf. Qed.
+Print Assumptions api_store_wellformed.
+
+Theorem api_store_copies : forall os,
+  let s := fst (run_store os) in
+  k07_1 s = false -> snap_wf (snapshot_of s) -> names_max_id (snapshot_of s) = false ->
+  (exists c, import dec_snapshot (export enc_snapshot s) = IOk c /\ dump c latest = dump s latest
+             /\ dump c (s_epoch c) = dump s latest)
+  /\ dump (to_memory s) latest = dump s latest.
+Proof. exact api_store_copies_l. Qed.
+Print Assumptions api_store_copies.
+
+(** export is a function of what a dump at the store's epoch shows (deterministic; the source
+    is an argument, not a state: it cannot change) *)
+Theorem export_deterministic : forall enc_snap s1 s2,
+  dump s1 (s_epoch s1) = dump s2 (s_epoch s2) -> export enc_snap s1 = export enc_snap s2.
+Proof. exact export_same_dump_l. Qed.
+Print Assumptions export_deterministic.
+
+(** exporting the import of an export gives the same bytes *)
+Theorem export_import_export : forall enc_snap dec_snap s c,
+  snap_carried enc_snap dec_snap (snapshot_of s) -> store_wf s ->
+  import dec_snap (export enc_snap s) = IOk c -> export enc_snap c = export enc_snap s.
+Proof. exact export_import_export_l. Qed.
+Print Assumptions export_import_export.
+
+(** to_memory *)
+Theorem to_memory_copy : forall s, store_wf s -> epoch_clean s = true -> dump (to_memory s) latest = dump s latest.
+Proof. exact to_memory_l. Qed.
+Print Assumptions to_memory_copy.
+
+(** save + open: unless the target's log rotates while it is written (a store above 64 MiB of
+    records), opening the saved directory yields exactly the store to_memory builds *)
+Theorem save_open_copy : forall crc enc dec, crc_u32 crc -> forall cfg s,
+  w_seq (db_w (db_close crc enc cfg (mkDb (build (snapshot_of s)) (db_tm db_fresh) (wlog_all crc enc cfg (db_w db_fresh) (save_records s))))) = 0 ->
+  Forall (rec_ok enc dec) (save_records s ++ close_logs (mkDb (build (snapshot_of s)) (db_tm db_fresh) (wlog_all crc enc cfg (db_w db_fresh) (save_records s)))) ->
+  save_open crc enc dec cfg s = ROk (to_memory s).
+Proof. exact save_open_l. Qed.
+Print Assumptions save_open_copy.
 
 (** for every byte string: an error, the overflow panic of class K3, or the complete store of
     the decoded snapshot — never a partially filled database *)
@@ -23,7 +91,13 @@ Theorem later_epoch_entities_not_copied_refuted : exists os,
 Proof. exists w07_1. exact w07_1_l. Qed.
 Print Assumptions later_epoch_entities_not_copied_refuted.
 
-(** C07-K2: bytes behind a valid snapshot are accepted *)
+(** C07-K2: bytes behind a valid snapshot are accepted (for every carried snapshot and every junk) *)
+Theorem trailing_bytes_accepted : forall enc_snap dec_snap sn junk,
+  snap_carried enc_snap dec_snap sn ->
+  import dec_snap (enc_snap sn ++ junk) = import dec_snap (enc_snap sn).
+Proof. exact trailing_accepted_l. Qed.
+Print Assumptions trailing_bytes_accepted.
+
 Theorem trailing_bytes_accepted_refuted : exists bs sn n c,
   dec_snapshot bs = Some (sn, n) /\ k07_2 bs n = true /\ import dec_snapshot bs = IOk c.
 Proof. exists w07_2, (mkSnap 1 [] []), 3%nat, empty_store. exact w07_2_l. Qed.
@@ -34,3 +108,11 @@ Theorem max_id_import_panics_refuted : exists bs sn,
   import dec_snapshot bs = IPanic /\ dec_snapshot bs = Some (sn, length bs) /\ k07_3 sn = true.
 Proof. exists w07_3, w07_3_snap. exact w07_3_l. Qed.
 Print Assumptions max_id_import_panics_refuted.
+
+(** non-vacuity: a store with deleted entities, properties and labels satisfies the premises *)
+Example copy_premises_hold :
+  let s := fst (run_store [OCreateNodeProps [sA; sB] [(sK, vOne)]; OCreateNode [sC]; OCreateEdgeProps 0 1 sK [(sK, vOne)]; ODeleteNode 1; OCreateNode []]) in
+  k07_1 s = false /\ names_max_id (snapshot_of s) = false
+  /\ zlist_eqb (enc_snapshot (snapshot_of s)) (enc_snapshot (snapshot_of s)) = true
+  /\ dsnap_eqb (dec_snapshot (enc_snapshot (snapshot_of s))) (Some (snapshot_of s, length (enc_snapshot (snapshot_of s)))) = true.
+Proof. cbv zeta. repeat split; vm_compute; reflexivity. Qed.
